@@ -50,6 +50,8 @@ func getSwapOutReceiverStates() States {
 				Event_ActionFailed:    State_SendCancel,
 				Event_ActionSucceeded: State_SwapOutReceiver_AwaitFeeInvoicePayment,
 			},
+			// The timeout is not re-armed after a restart.
+			FailOnrecover: true,
 		},
 		State_SwapOutReceiver_AwaitFeeInvoicePayment: {
 			Action: &AwaitFeeInvoicePayment{},
@@ -57,6 +59,8 @@ func getSwapOutReceiverStates() States {
 				Event_OnFeeInvoicePaid: State_SwapOutReceiver_BroadcastOpeningTx,
 				Event_OnCancelReceived: State_SwapCanceled,
 				Event_ActionFailed:     State_SendCancel,
+				// The fee invoice expires together with this timeout.
+				Event_OnTimeout: State_SendCancel,
 			},
 			FailOnrecover: true,
 		},
